@@ -154,11 +154,15 @@ class UidOracle(Oracle):
                 continue
             world.sim.oracle("uid_live")
             seen: dict[str, str] = {}
+            class_types: dict[str, set] = {}
             stack = [handle.ws.root]
             while stack:
                 ent = stack.pop()
                 key = ustr(ent.uid)
                 what = f"{snapshot.kind_of(ent)} {ent.name!r}"
+                if snapshot.kind_of(ent) in ("group", "object"):
+                    # all entities of one object or group class share a single type
+                    class_types.setdefault(type(ent).__name__, set()).add(ustr(ent.entity_type.uid))
                 if key in seen:
                     raise Violation("C06", "uid_shared_live", f"{key} used by {seen[key]} and {what}", {"a": seen[key].split(' ')[0], "b": what.split(' ')[0]})
                 seen[key] = what
@@ -168,6 +172,15 @@ class UidOracle(Oracle):
                         raise Violation("C06", "uid_shared_live", f"{pkey} used by {seen[pkey]} and property group {pg.name!r}", {"a": seen[pkey].split(' ')[0], "b": "pg"})
                     seen[pkey] = f"pg {pg.name!r}"
                 stack.extend(snapshot.children_of(ent))
+            split = {c: sorted(t) for c, t in class_types.items() if len(t) > 1}
+            if split:
+                cls = sorted(split)[0]
+                raise Violation("C06", "class_has_two_types", f"entities of class {cls} carry {len(split[cls])} different types: {split[cls]}", {"cls": cls})
+            # no two live types share an identifier
+            type_ids = [ustr(t.uid) for t in handle.ws.types]
+            dup = sorted({t for t in type_ids if type_ids.count(t) > 1})
+            if dup:
+                raise Violation("C06", "type_uid_shared", f"type identifier {dup[0]} is carried by {type_ids.count(dup[0])} live types", {})
         if op["k"] in ("copy", "copy_extent") and outcome == "ok" and world.copies and world.copies[-1].get("judged_uid") is None:
             world.copies[-1]["judged_uid"] = True
             self.copy_rules(world, world.copies[-1])
